@@ -191,6 +191,12 @@ func main() {
 				}
 			}
 		}
+		// resp.lineRead: readLine takes the whole line whatever its length: r.ReadString('\n') (or ReadBytes);
+		// ReadSlice / ReadLine are bounded by the reader's buffer: unknown shape
+		rlSrc := sv.Src(body(rl))
+		unb := (strings.Contains(rlSrc, "r.ReadString('\\n')") || strings.Contains(rlSrc, "r.ReadBytes('\\n')")) &&
+			!strings.Contains(rlSrc, "ReadSlice") && !strings.Contains(rlSrc, "ReadLine")
+		o.Set("resp.lineRead", "cmd/nokv-redis/server.go:readLine", "unbounded", unb, "unbounded")
 		o.Set("resp.lineTerm", "cmd/nokv-redis/server.go:readLine", map[bool]string{true: "crlf", false: "other"}[term], rl != nil, "crlf")
 		o.Set("resp.crlfAfterBulk", aParse, fmt.Sprint(strings.Contains(prSrc, "expectCRLF(r)")), pr != nil, "true")
 	}
